@@ -37,6 +37,19 @@ def run(ctx):
             cases.append((k, h))
             found += 1
     ctx.note("signatures with a leading zero byte in r or s included: %d (from %d scanned)" % (found, tries))
+    # keys whose 32 bytes are all printable ASCII ("brain wallet" style), digests that are well-known constants
+    import hashlib as _hl
+    text_keys = [b"correct horse battery staple 123", b"A" * 32, b" " * 32, b"~" * 32, b"0123456789abcdef0123456789abcdef", b"password" * 4]
+    notable = [pyref.keccak256(b""), _hl.sha256(b"").digest(), pyref.keccak256(b"\x19Ethereum Signed Message:\n0"), b"\x11" * 32, b"\x00" * 31 + b"\x01",
+               pyref.keccak256(b"\x00"), bytes(range(32)), b"\xde\xad\xbe\xef" * 8]
+    for tk in text_keys:
+        kv = int.from_bytes(tk, "big")
+        if 0 < kv < N:
+            cases.append((kv, rbytes(rng, 32)))
+            cases.append((kv, notable[0]))
+    for h_ in notable:
+        cases.append((rng.randrange(1, N), h_))
+        cases.append((1, h_))
     impl = ctx.harness([("sign", k.to_bytes(32, "big"), h) for k, h in cases])
     mod = ctx.model(["c05_sign %s %s" % (ni(k), pb(h)) for k, h in cases], label="C05", timeout=1500)
     par = {0: 0, 1: 0}
